@@ -129,6 +129,9 @@ impl ISocket for ReqSocket {
       }
     }
 
+    #[cfg(rzmq_verif)]
+    crate::verif::sched::gate("req.send.checked").await;
+
     let timeout_opt: Option<Duration> = { self.core.core_state.read().options.sndtimeo };
 
     // === ASYNC OPERATION: Find a Peer (No Lock Held) ===
@@ -197,6 +200,9 @@ impl ISocket for ReqSocket {
         ));
       }
     }
+
+    #[cfg(rzmq_verif)]
+    crate::verif::sched::gate("req.recv.checked").await;
 
     let notifier = self.reply_available_notifier.clone();
     let received_msg_result: Result<Msg, ZmqError>;
